@@ -342,9 +342,10 @@ def run_batch(prop: str, engine: str, tier: str, base_seed: int, plan: dict) -> 
         "wall_s": round(wall, 2),
         "violations": len(new_violations) + len(regress_bad),
     }
-    os.makedirs(os.path.join(VERIF, "evidence"), exist_ok=True)
-    with open(os.path.join(VERIF, "evidence", f"{prop}.json"), "w") as f:
-        json.dump(ev, f, indent=1, default=_json_default)
+    if not os.environ.get("SIMKIT_NO_EVIDENCE"):  # (sensitivity runs against mutated trees must not leave evidence)
+        os.makedirs(os.path.join(VERIF, "evidence"), exist_ok=True)
+        with open(os.path.join(VERIF, "evidence", f"{prop}.json"), "w") as f:
+            json.dump(ev, f, indent=1, default=_json_default)
 
     print(
         f"[{prop}/{engine}/{tier}] runs={evaluations} ok={status.get('ok', 0)} discard={status.get('discard', 0)} "
